@@ -1280,10 +1280,12 @@ pub fn generate(kind: &str, seed: u64, count: usize, out: &str) {
           let r = i as u64 + 1;
           steps.push(json!({"op": "build", "dst": r, "tree": t}));
           steps.extend(obs_all(r));
+          steps.push(stream(r, true, true));
         }
         let ch: Vec<Value> = (1..=n).map(|r| json!({"k": "reg", "r": r})).collect();
         steps.push(json!({"op": "build", "dst": 0, "tree": {"k": "concat", "mode": "boxed", "ch": ch}}));
         steps.extend(obs_all(0));
+        steps.push(stream(0, true, true));
         steps.push(json!({"op": "law", "law": "concat_children", "r": 0,
                           "children": (1..=n).collect::<Vec<u64>>()}));
       }
